@@ -959,6 +959,89 @@ func (c *Ctx) genC06() {
 		}
 		c.emit("idpserve", sc.toks(), impl, sc.scopeOracle(d, note))
 	}
+	c.signerFaults()
+}
+
+// faultySigner: an external signer (HSM, KMS) that fails on chosen calls
+type faultySigner struct {
+	k      crypto.Signer
+	n      *int
+	failAt map[int]bool
+}
+
+func (f faultySigner) Public() crypto.PublicKey { return f.k.Public() }
+func (f faultySigner) Sign(r io.Reader, d []byte, opts crypto.SignerOpts) ([]byte, error) {
+	*f.n++
+	if f.failAt[*f.n] {
+		return nil, fmt.Errorf("signing device unavailable (call %d)", *f.n)
+	}
+	return f.k.Sign(r, d, opts)
+}
+
+// signerFaults: "both the assertion and the enclosing response carry enveloped signatures that verify … (private key or
+// external signer)" — when the external signer fails on the first, the second or every call, the IdP emits either nothing
+// (an error reply) or a form whose two signatures verify; never a form with a signature missing.
+func (c *Ctx) signerFaults() {
+	now := baseTime
+	saml.TimeNow = func() time.Time { return now }
+	saml.Clock = dsig.NewFakeClockAt(now)
+	saml.RandReader = &detReader{c: c}
+	xmlenc.RandReader = &detReader{c: c}
+	entity := "https://sp.example.com/signer-faults"
+	for _, enc := range []bool{false, true} {
+		kds := []saml.KeyDescriptor{}
+		if enc {
+			kd := saml.KeyDescriptor{Use: "encryption"}
+			kd.KeyInfo.X509Data.X509Certificates = []saml.X509Certificate{{Data: base64.StdEncoding.EncodeToString(c.key("sp").Cert.Raw)}}
+			kds = append(kds, kd)
+		}
+		reg := &rollingRegistry{md: &saml.EntityDescriptor{EntityID: entity, SPSSODescriptors: []saml.SPSSODescriptor{{
+			SSODescriptor:             saml.SSODescriptor{RoleDescriptor: saml.RoleDescriptor{KeyDescriptors: kds}},
+			AssertionConsumerServices: []saml.IndexedEndpoint{{Binding: saml.HTTPPostBinding, Location: entity + "/acs", Index: 1}}}}}}
+		for _, method := range []string{"", dsig.RSASHA256SignatureMethod} {
+			for _, fail := range [][]int{{}, {1}, {2}, {1, 2}, {3}} {
+				k := c.key("idp")
+				n := 0
+				fa := map[int]bool{}
+				for _, x := range fail {
+					fa[x] = true
+				}
+				idp := &saml.IdentityProvider{Signer: faultySigner{k: k.Key, n: &n, failAt: fa}, Certificate: k.Cert, Logger: logger.DefaultLogger, MetadataURL: mustURL(idpMetadataURL),
+					SSOURL: mustURL(idpSSOURL), ServiceProviderProvider: reg, SignatureMethod: method,
+					SessionProvider: fixedSession{&saml.Session{ID: "sess-f", NameID: "alice", UserName: "alice", CreateTime: now, ExpireTime: now.Add(time.Hour), Index: "idx-f"}}}
+				why := ""
+				res := safely(func() string {
+					w := httptest.NewRecorder()
+					r, _ := http.NewRequest("GET", "https://idp.example.com/login/faults", nil)
+					idp.ServeIDPInitiated(w, r, entity, "rs")
+					body := w.Body.String()
+					if !strings.Contains(body, `name="SAMLResponse"`) {
+						return fmt.Sprintf("no-form-%d", w.Code)
+					}
+					var spKey crypto.PrivateKey
+					if enc {
+						spKey = c.key("sp").Key
+					}
+					d, note := c.decodeForm(body, k.Cert, expectedSigAlg(method), spKey)
+					if d == nil {
+						return "undecodable: " + note
+					}
+					if d.sigNote != "" {
+						return "bad-signatures: " + d.sigNote
+					}
+					return "signed-form"
+				})
+				if len(fail) == 0 && res != "signed-form" {
+					why = "key=c06-signature with a healthy external signer the IdP emitted: " + res
+				}
+				if strings.HasPrefix(res, "bad-signatures") || strings.HasPrefix(res, "undecodable") || strings.HasPrefix(res, "panic") {
+					why = fmt.Sprintf("key=c06-signature:signer-fault the external signer failed on call(s) %v and the IdP emitted a form that is not properly signed: %s", fail, res)
+				}
+				c.count("c06-signer-faults", fmt.Sprintf("enc=%v fail=%v -> %s", enc, fail, strings.SplitN(res, ":", 2)[0]))
+				c.emitOneWay("signerfault", []string{encBool(enc), encStr(method), encStr(fmt.Sprint(fail))}, strings.SplitN(res, ":", 2)[0], why)
+			}
+		}
+	}
 }
 
 // ---------- C07: real SP → real IdP → real SP ----------
@@ -1716,6 +1799,7 @@ func (c *Ctx) genC08() {
 	}
 
 	c.encKeyRollover()
+	c.defaultRandomSource()
 	// 2. freshness: runs of encrypted responses under a counting reader; key and IV located in the stream
 	runs := 12
 	if !c.quick() {
@@ -1894,6 +1978,70 @@ func (c *Ctx) retrySameRequest(sc *serveCase) string {
 		why = "retrying on the same request panicked: " + res
 	}
 	return why
+}
+
+// the library's own random sources, as the packages initialise them (every other case of this harness replaces them by a
+// deterministic reader; a deployment does not)
+var (
+	defaultXmlencRand = xmlenc.RandReader
+	defaultSamlRand   = saml.RandReader
+)
+
+// defaultRandomSource: "a fresh content-encryption key and IV are drawn for every response" — with the random sources the
+// library ships with. Each response's key is unwrapped with the SP key and the IV read from the cipher value: all distinct, and
+// none with a tail of zero bytes (a short read of the source leaves the rest of a freshly allocated buffer zero; 6 zero bytes
+// at the end of a random value have probability 2^-48).
+func (c *Ctx) defaultRandomSource() {
+	saved, savedS := xmlenc.RandReader, saml.RandReader
+	xmlenc.RandReader, saml.RandReader = defaultXmlencRand, defaultSamlRand
+	defer func() { xmlenc.RandReader, saml.RandReader = saved, savedS }()
+	n := 400
+	if !c.quick() {
+		n = 5000
+	}
+	seen := map[string]bool{}
+	why := ""
+	spk := c.key("sp")
+	res := safely(func() string {
+		for i := 0; i < n && why == ""; i++ {
+			enc := xmlenc.OAEP()
+			enc.BlockCipher = xmlenc.AES128CBC
+			enc.DigestMethod = &xmlenc.SHA1
+			el, err := enc.Encrypt(spk.Cert, []byte("<a>default random source</a>"), nil)
+			if err != nil {
+				return "err"
+			}
+			ek := el.FindElement("./KeyInfo/EncryptedKey")
+			if ek == nil {
+				return "no-encrypted-key"
+			}
+			kraw, err := xmlenc.Decrypt(spk.Key, ek)
+			if err != nil {
+				return "key-unwrap-failed"
+			}
+			key := kraw
+			ct, _ := cipherValueOf(el)
+			if len(key) != 16 || len(ct) < 32 {
+				return "unexpected-shape"
+			}
+			iv := ct[:16]
+			for name, v := range map[string][]byte{"content-encryption key": key, "IV": iv} {
+				if bytes.Equal(v[len(v)-6:], make([]byte, 6)) {
+					why = fmt.Sprintf("key=c08-not-fresh:default-source response %d was encrypted under a %s whose last bytes are zero (%x): the library's default random source was read short", i, name, v)
+				}
+				if seen[name+string(v)] {
+					why = fmt.Sprintf("key=c08-not-fresh:default-source response %d re-uses the %s of an earlier response", i, name)
+				}
+				seen[name+string(v)] = true
+			}
+		}
+		return "done"
+	})
+	if res != "done" && why == "" {
+		why = "key=c08-not-fresh:default-source encrypting with the library's default random source: " + res
+	}
+	c.count("c08-default-random-source", res)
+	c.emitOneWay("defaultrand", []string{fmt.Sprint(n)}, res, why)
 }
 
 type rollingRegistry struct{ md *saml.EntityDescriptor }
